@@ -9,7 +9,7 @@ RULE = ("family slot: QObjectHandler as the server's root handler (real ServerPr
 ASSUMPTIONS = ["request targets are in the C01 class"]
 TRUSTED = ["SimTcp stands in for TCP; the receiver object's slots only log"]
 
-NAMES = [b"echo", b"ech", b"echo2", b"", b"a/b", b"data", b"Echo"]
+NAMES = [b"echo", b"ech", b"echo2", b"", b"a/b", b"data", b"Echo", b"caf\xc3\xa9", b"echo/", b"e" * 300]
 
 
 def cases(tier, seed, ctx=None):
